@@ -7,10 +7,10 @@ def errorSites : List (String × String × Bool × Bool) := [
   ("parser.parseHost", "DomainToASCII", true, true),
   ("parser.parseHost", "DomainInvalidCodePoint", true, true),
   ("parser.parseIPv4Number", "IPv4EmptyPart", true, true),
+  ("parser.parseIPv4Number", "IPv4NonDecimalPart", false, true),
   ("parser.parseIPv4", "IPv4EmptyPart", false, true),
   ("parser.parseIPv4", "IPv4TooManyParts", true, true),
   ("parser.parseIPv4", "IPv4NonNumericPart", true, true),
-  ("parser.parseIPv4", "IPv4NonDecimalPart", false, true),
   ("parser.parseIPv4", "IPv4OutOfRangePart", false, true),
   ("parser.parseIPv4", "IPv4OutOfRangePart", true, true),
   ("parser.parseIPv4", "IPv4OutOfRangePart", true, true),
@@ -256,7 +256,6 @@ def modrefUrl : List (String × Bool × List String × List String × List Strin
   ("NewPercentEncodeSet", true, [], [], [], []),
   ("PercentEncodeSet.Set", true, [], [], [], [("bitset.BitSet.Clone", "recv")]),
   ("PercentEncodeSet.Clear", true, [], [], [], [("bitset.BitSet.Clone", "recv")]),
-  ("PercentEncodeSet.with", false, [], [], [], [("bitset.BitSet.Clear", "recv"), ("bitset.BitSet.Set", "recv"), ("bitset.BitSet.Test", "recv")]),
   ("PercentEncodeSet.RuneShouldBeEncoded", true, [], [], [], [("bitset.BitSet.Test", "recv")]),
   ("PercentEncodeSet.ByteShouldBeEncoded", true, [], [], [], [("bitset.BitSet.Test", "recv")]),
   ("PercentEncodeSet.RuneNotInSet", true, [], [], [], [("bitset.BitSet.Test", "recv")]),
@@ -265,7 +264,7 @@ def modrefUrl : List (String × Bool × List String × List String × List Strin
   ("parser.handleError", false, ["param0"], ["fresh"], [], []),
   ("parser.handleErrorWithDescription", false, ["param0"], ["fresh"], [], []),
   ("parser.handleWrappedError", false, ["param0"], ["fresh"], [], []),
-  ("parser.parseHost", false, ["param0"], ["fresh"], [], [("bitset.BitSet.Clear", "global"), ("bitset.BitSet.Set", "global"), ("bitset.BitSet.Test", "global"), ("charmap.Charmap.DecodeByte", "recv"), ("charmap.Charmap.EncodeRune", "param1"), ("charmap.Charmap.EncodeRune", "recv"), ("charmap.Charmap.String", "recv"), ("idna.Profile.ToASCII", "global")]),
+  ("parser.parseHost", false, ["param0"], ["fresh"], [], [("bitset.BitSet.Clone", "global"), ("bitset.BitSet.Test", "global"), ("charmap.Charmap.DecodeByte", "recv"), ("charmap.Charmap.EncodeRune", "param1"), ("charmap.Charmap.EncodeRune", "recv"), ("charmap.Charmap.String", "recv"), ("idna.Profile.ToASCII", "global")]),
   ("parser.endsInANumber", false, ["param0"], [], [], [("bitset.BitSet.Test", "global")]),
   ("parser.parseIPv4Number", false, ["param0"], ["fresh", "global"], [], [("bitset.BitSet.Test", "global")]),
   ("isRadixDigit", false, [], [], [], [("bitset.BitSet.Test", "global")]),
@@ -293,15 +292,15 @@ def modrefUrl : List (String × Bool × List String × List String × List Strin
   ("remainingIsInvalidPercentEncoded", false, [], [], [], [("bitset.BitSet.Test", "global")]),
   ("inputString.String", false, [], [], [], []),
   ("NewParser", true, [], [], [], []),
-  ("parser.Parse", true, [], ["fresh"], [], [("bitset.BitSet.Clear", "global"), ("bitset.BitSet.Clear", "recv"), ("bitset.BitSet.Clone", "global"), ("bitset.BitSet.Set", "global"), ("bitset.BitSet.Set", "recv"), ("bitset.BitSet.Test", "global"), ("bitset.BitSet.Test", "recv"), ("charmap.Charmap.DecodeByte", "recv"), ("charmap.Charmap.EncodeRune", "recv"), ("charmap.Charmap.String", "recv"), ("idna.Profile.ToASCII", "global")]),
-  ("parser.ParseRef", true, [], ["fresh"], [], [("bitset.BitSet.Clear", "global"), ("bitset.BitSet.Clear", "recv"), ("bitset.BitSet.Clone", "global"), ("bitset.BitSet.Set", "global"), ("bitset.BitSet.Set", "recv"), ("bitset.BitSet.Test", "global"), ("bitset.BitSet.Test", "recv"), ("charmap.Charmap.DecodeByte", "recv"), ("charmap.Charmap.EncodeRune", "recv"), ("charmap.Charmap.String", "recv"), ("idna.Profile.ToASCII", "global")]),
-  ("Url.Parse", true, [], ["fresh"], [], [("bitset.BitSet.Clear", "global"), ("bitset.BitSet.Clear", "recv"), ("bitset.BitSet.Clone", "global"), ("bitset.BitSet.Set", "global"), ("bitset.BitSet.Set", "recv"), ("bitset.BitSet.Test", "global"), ("bitset.BitSet.Test", "recv"), ("charmap.Charmap.DecodeByte", "recv"), ("charmap.Charmap.EncodeRune", "recv"), ("charmap.Charmap.String", "recv"), ("idna.Profile.ToASCII", "global")]),
-  ("Parse", true, [], ["fresh"], [], [("bitset.BitSet.Clear", "global"), ("bitset.BitSet.Clone", "global"), ("bitset.BitSet.Set", "global"), ("bitset.BitSet.Test", "global"), ("charmap.Charmap.DecodeByte", "global"), ("charmap.Charmap.EncodeRune", "global"), ("charmap.Charmap.String", "global"), ("idna.Profile.ToASCII", "global")]),
-  ("ParseRef", true, [], ["fresh"], [], [("bitset.BitSet.Clear", "global"), ("bitset.BitSet.Clone", "global"), ("bitset.BitSet.Set", "global"), ("bitset.BitSet.Test", "global"), ("charmap.Charmap.DecodeByte", "global"), ("charmap.Charmap.EncodeRune", "global"), ("charmap.Charmap.String", "global"), ("idna.Profile.ToASCII", "global")]),
-  ("parser.BasicParser", true, ["param2"], ["fresh", "param2"], [], [("bitset.BitSet.Clear", "global"), ("bitset.BitSet.Clear", "recv"), ("bitset.BitSet.Clone", "global"), ("bitset.BitSet.Set", "global"), ("bitset.BitSet.Set", "recv"), ("bitset.BitSet.Test", "global"), ("bitset.BitSet.Test", "recv"), ("charmap.Charmap.DecodeByte", "recv"), ("charmap.Charmap.EncodeRune", "recv"), ("charmap.Charmap.String", "recv"), ("idna.Profile.ToASCII", "global")]),
-  ("parser.percentEncodeInvalidRune", false, [], [], [], [("bitset.BitSet.Clear", "param1"), ("bitset.BitSet.Set", "param1"), ("bitset.BitSet.Test", "param1"), ("charmap.Charmap.EncodeRune", "recv")]),
+  ("parser.Parse", true, [], ["fresh"], [], [("bitset.BitSet.Clone", "global"), ("bitset.BitSet.Clone", "recv"), ("bitset.BitSet.Test", "global"), ("bitset.BitSet.Test", "recv"), ("charmap.Charmap.DecodeByte", "recv"), ("charmap.Charmap.EncodeRune", "recv"), ("charmap.Charmap.String", "recv"), ("idna.Profile.ToASCII", "global")]),
+  ("parser.ParseRef", true, [], ["fresh"], [], [("bitset.BitSet.Clone", "global"), ("bitset.BitSet.Clone", "recv"), ("bitset.BitSet.Test", "global"), ("bitset.BitSet.Test", "recv"), ("charmap.Charmap.DecodeByte", "recv"), ("charmap.Charmap.EncodeRune", "recv"), ("charmap.Charmap.String", "recv"), ("idna.Profile.ToASCII", "global")]),
+  ("Url.Parse", true, [], ["fresh"], [], [("bitset.BitSet.Clone", "global"), ("bitset.BitSet.Clone", "recv"), ("bitset.BitSet.Test", "global"), ("bitset.BitSet.Test", "recv"), ("charmap.Charmap.DecodeByte", "recv"), ("charmap.Charmap.EncodeRune", "recv"), ("charmap.Charmap.String", "recv"), ("idna.Profile.ToASCII", "global")]),
+  ("Parse", true, [], ["fresh"], [], [("bitset.BitSet.Clone", "global"), ("bitset.BitSet.Test", "global"), ("charmap.Charmap.DecodeByte", "global"), ("charmap.Charmap.EncodeRune", "global"), ("charmap.Charmap.String", "global"), ("idna.Profile.ToASCII", "global")]),
+  ("ParseRef", true, [], ["fresh"], [], [("bitset.BitSet.Clone", "global"), ("bitset.BitSet.Test", "global"), ("charmap.Charmap.DecodeByte", "global"), ("charmap.Charmap.EncodeRune", "global"), ("charmap.Charmap.String", "global"), ("idna.Profile.ToASCII", "global")]),
+  ("parser.BasicParser", true, ["param2"], ["fresh", "param2"], [], [("bitset.BitSet.Clone", "global"), ("bitset.BitSet.Clone", "recv"), ("bitset.BitSet.Test", "global"), ("bitset.BitSet.Test", "recv"), ("charmap.Charmap.DecodeByte", "recv"), ("charmap.Charmap.EncodeRune", "recv"), ("charmap.Charmap.String", "recv"), ("idna.Profile.ToASCII", "global")]),
+  ("parser.percentEncodeInvalidRune", false, [], [], [], [("bitset.BitSet.Clone", "param1"), ("bitset.BitSet.Test", "param1"), ("charmap.Charmap.EncodeRune", "recv")]),
   ("parser.percentEncodeRune", false, [], [], [], [("bitset.BitSet.Test", "param1"), ("charmap.Charmap.EncodeRune", "recv")]),
-  ("parser.PercentEncodeString", true, [], [], [], [("bitset.BitSet.Clear", "param1"), ("bitset.BitSet.Set", "param1"), ("bitset.BitSet.Test", "global"), ("bitset.BitSet.Test", "param1"), ("charmap.Charmap.EncodeRune", "recv")]),
+  ("parser.PercentEncodeString", true, [], [], [], [("bitset.BitSet.Clone", "param1"), ("bitset.BitSet.Test", "global"), ("bitset.BitSet.Test", "param1"), ("charmap.Charmap.EncodeRune", "recv")]),
   ("parser.DecodePercentEncoded", true, [], [], [], [("bitset.BitSet.Test", "global"), ("charmap.Charmap.DecodeByte", "recv")]),
   ("parser.NewUrl", true, [], ["fresh"], [], []),
   ("isSingleDotPathSegment", false, [], [], [], []),
@@ -368,29 +367,29 @@ def modrefUrl : List (String × Bool × List String × List String × List Strin
   ("SearchParams.Clone", true, [], ["fresh", "fresh.url>recv"], [], []),
   ("Url.Href", true, [], [], [], []),
   ("Url.Protocol", true, [], [], [], []),
-  ("Url.SetProtocol", true, ["recv"], [], [], [("bitset.BitSet.Clear", "global"), ("bitset.BitSet.Clear", "recv"), ("bitset.BitSet.Clone", "global"), ("bitset.BitSet.Set", "global"), ("bitset.BitSet.Set", "recv"), ("bitset.BitSet.Test", "global"), ("bitset.BitSet.Test", "recv"), ("charmap.Charmap.DecodeByte", "recv"), ("charmap.Charmap.EncodeRune", "recv"), ("charmap.Charmap.String", "recv"), ("idna.Profile.ToASCII", "global")]),
+  ("Url.SetProtocol", true, ["recv"], [], [], [("bitset.BitSet.Clone", "global"), ("bitset.BitSet.Clone", "recv"), ("bitset.BitSet.Test", "global"), ("bitset.BitSet.Test", "recv"), ("charmap.Charmap.DecodeByte", "recv"), ("charmap.Charmap.EncodeRune", "recv"), ("charmap.Charmap.String", "recv"), ("idna.Profile.ToASCII", "global")]),
   ("Url.Scheme", true, [], [], [], []),
   ("Url.Username", true, [], [], [], []),
-  ("Url.SetUsername", true, ["recv"], [], [], [("bitset.BitSet.Clear", "global"), ("bitset.BitSet.Set", "global"), ("bitset.BitSet.Test", "global"), ("charmap.Charmap.EncodeRune", "recv")]),
+  ("Url.SetUsername", true, ["recv"], [], [], [("bitset.BitSet.Clone", "global"), ("bitset.BitSet.Test", "global"), ("charmap.Charmap.EncodeRune", "recv")]),
   ("Url.Password", true, [], [], [], []),
-  ("Url.SetPassword", true, ["recv"], [], [], [("bitset.BitSet.Clear", "global"), ("bitset.BitSet.Set", "global"), ("bitset.BitSet.Test", "global"), ("charmap.Charmap.EncodeRune", "recv")]),
+  ("Url.SetPassword", true, ["recv"], [], [], [("bitset.BitSet.Clone", "global"), ("bitset.BitSet.Test", "global"), ("charmap.Charmap.EncodeRune", "recv")]),
   ("Url.Host", true, [], [], [], []),
-  ("Url.SetHost", true, ["recv"], [], [], [("bitset.BitSet.Clear", "global"), ("bitset.BitSet.Clear", "recv"), ("bitset.BitSet.Clone", "global"), ("bitset.BitSet.Set", "global"), ("bitset.BitSet.Set", "recv"), ("bitset.BitSet.Test", "global"), ("bitset.BitSet.Test", "recv"), ("charmap.Charmap.DecodeByte", "recv"), ("charmap.Charmap.EncodeRune", "recv"), ("charmap.Charmap.String", "recv"), ("idna.Profile.ToASCII", "global")]),
+  ("Url.SetHost", true, ["recv"], [], [], [("bitset.BitSet.Clone", "global"), ("bitset.BitSet.Clone", "recv"), ("bitset.BitSet.Test", "global"), ("bitset.BitSet.Test", "recv"), ("charmap.Charmap.DecodeByte", "recv"), ("charmap.Charmap.EncodeRune", "recv"), ("charmap.Charmap.String", "recv"), ("idna.Profile.ToASCII", "global")]),
   ("Url.Hostname", true, [], [], [], []),
-  ("Url.SetHostname", true, ["recv"], [], [], [("bitset.BitSet.Clear", "global"), ("bitset.BitSet.Clear", "recv"), ("bitset.BitSet.Clone", "global"), ("bitset.BitSet.Set", "global"), ("bitset.BitSet.Set", "recv"), ("bitset.BitSet.Test", "global"), ("bitset.BitSet.Test", "recv"), ("charmap.Charmap.DecodeByte", "recv"), ("charmap.Charmap.EncodeRune", "recv"), ("charmap.Charmap.String", "recv"), ("idna.Profile.ToASCII", "global")]),
+  ("Url.SetHostname", true, ["recv"], [], [], [("bitset.BitSet.Clone", "global"), ("bitset.BitSet.Clone", "recv"), ("bitset.BitSet.Test", "global"), ("bitset.BitSet.Test", "recv"), ("charmap.Charmap.DecodeByte", "recv"), ("charmap.Charmap.EncodeRune", "recv"), ("charmap.Charmap.String", "recv"), ("idna.Profile.ToASCII", "global")]),
   ("Url.Port", true, [], [], [], []),
-  ("Url.SetPort", true, ["recv"], [], [], [("bitset.BitSet.Clear", "global"), ("bitset.BitSet.Clear", "recv"), ("bitset.BitSet.Clone", "global"), ("bitset.BitSet.Set", "global"), ("bitset.BitSet.Set", "recv"), ("bitset.BitSet.Test", "global"), ("bitset.BitSet.Test", "recv"), ("charmap.Charmap.DecodeByte", "recv"), ("charmap.Charmap.EncodeRune", "recv"), ("charmap.Charmap.String", "recv"), ("idna.Profile.ToASCII", "global")]),
+  ("Url.SetPort", true, ["recv"], [], [], [("bitset.BitSet.Clone", "global"), ("bitset.BitSet.Clone", "recv"), ("bitset.BitSet.Test", "global"), ("bitset.BitSet.Test", "recv"), ("charmap.Charmap.DecodeByte", "recv"), ("charmap.Charmap.EncodeRune", "recv"), ("charmap.Charmap.String", "recv"), ("idna.Profile.ToASCII", "global")]),
   ("Url.DecodedPort", true, [], [], [], []),
   ("Url.Pathname", true, [], [], [], []),
-  ("Url.SetPathname", true, ["recv"], [], [], [("bitset.BitSet.Clear", "global"), ("bitset.BitSet.Clear", "recv"), ("bitset.BitSet.Clone", "global"), ("bitset.BitSet.Set", "global"), ("bitset.BitSet.Set", "recv"), ("bitset.BitSet.Test", "global"), ("bitset.BitSet.Test", "recv"), ("charmap.Charmap.DecodeByte", "recv"), ("charmap.Charmap.EncodeRune", "recv"), ("charmap.Charmap.String", "recv"), ("idna.Profile.ToASCII", "global")]),
+  ("Url.SetPathname", true, ["recv"], [], [], [("bitset.BitSet.Clone", "global"), ("bitset.BitSet.Clone", "recv"), ("bitset.BitSet.Test", "global"), ("bitset.BitSet.Test", "recv"), ("charmap.Charmap.DecodeByte", "recv"), ("charmap.Charmap.EncodeRune", "recv"), ("charmap.Charmap.String", "recv"), ("idna.Profile.ToASCII", "global")]),
   ("Url.OpaquePath", true, [], [], [], []),
   ("Url.Search", true, [], [], [], []),
-  ("Url.SetSearch", true, ["recv"], [], [], [("bitset.BitSet.Clear", "global"), ("bitset.BitSet.Clear", "recv"), ("bitset.BitSet.Clone", "global"), ("bitset.BitSet.Set", "global"), ("bitset.BitSet.Set", "recv"), ("bitset.BitSet.Test", "global"), ("bitset.BitSet.Test", "recv"), ("charmap.Charmap.DecodeByte", "recv"), ("charmap.Charmap.EncodeRune", "recv"), ("charmap.Charmap.String", "recv"), ("idna.Profile.ToASCII", "global")]),
+  ("Url.SetSearch", true, ["recv"], [], [], [("bitset.BitSet.Clone", "global"), ("bitset.BitSet.Clone", "recv"), ("bitset.BitSet.Test", "global"), ("bitset.BitSet.Test", "recv"), ("charmap.Charmap.DecodeByte", "recv"), ("charmap.Charmap.EncodeRune", "recv"), ("charmap.Charmap.String", "recv"), ("idna.Profile.ToASCII", "global")]),
   ("Url.SearchParams", true, ["recv"], ["recv"], [], [("bitset.BitSet.Test", "global")]),
   ("Url.SetSearchParams", true, ["recv"], [], ["recv<-param0"], [("bitset.BitSet.Test", "recv"), ("charmap.Charmap.EncodeRune", "recv")]),
   ("Url.Query", true, [], [], [], []),
   ("Url.Hash", true, [], [], [], []),
-  ("Url.SetHash", true, ["recv"], [], [], [("bitset.BitSet.Clear", "global"), ("bitset.BitSet.Clear", "recv"), ("bitset.BitSet.Clone", "global"), ("bitset.BitSet.Set", "global"), ("bitset.BitSet.Set", "recv"), ("bitset.BitSet.Test", "global"), ("bitset.BitSet.Test", "recv"), ("charmap.Charmap.DecodeByte", "recv"), ("charmap.Charmap.EncodeRune", "recv"), ("charmap.Charmap.String", "recv"), ("idna.Profile.ToASCII", "global")]),
+  ("Url.SetHash", true, ["recv"], [], [], [("bitset.BitSet.Clone", "global"), ("bitset.BitSet.Clone", "recv"), ("bitset.BitSet.Test", "global"), ("bitset.BitSet.Test", "recv"), ("charmap.Charmap.DecodeByte", "recv"), ("charmap.Charmap.EncodeRune", "recv"), ("charmap.Charmap.String", "recv"), ("idna.Profile.ToASCII", "global")]),
   ("Url.Fragment", true, [], [], [], []),
   ("Url.String", true, [], [], [], []),
   ("Url.ValidationErrors", true, [], ["recv"], [], []),
@@ -402,9 +401,9 @@ def modrefUrl : List (String × Bool × List String × List String × List Strin
 
 def modrefCanon : List (String × Bool × List String × List String × List String × List (String × String)) := [
   ("New", true, [], [], [], []),
-  ("profile.Parse", true, [], ["fresh"], [], [("bitset.BitSet.Clear", "global"), ("bitset.BitSet.Clear", "recv"), ("bitset.BitSet.Clone", "global"), ("bitset.BitSet.Set", "global"), ("bitset.BitSet.Set", "recv"), ("bitset.BitSet.Test", "global"), ("bitset.BitSet.Test", "recv"), ("charmap.Charmap.DecodeByte", "recv"), ("charmap.Charmap.EncodeRune", "recv"), ("charmap.Charmap.String", "recv"), ("idna.Profile.ToASCII", "global")]),
-  ("profile.ParseRef", true, [], ["fresh"], [], [("bitset.BitSet.Clear", "global"), ("bitset.BitSet.Clear", "recv"), ("bitset.BitSet.Clone", "global"), ("bitset.BitSet.Set", "global"), ("bitset.BitSet.Set", "recv"), ("bitset.BitSet.Test", "global"), ("bitset.BitSet.Test", "recv"), ("charmap.Charmap.DecodeByte", "recv"), ("charmap.Charmap.EncodeRune", "recv"), ("charmap.Charmap.String", "recv"), ("idna.Profile.ToASCII", "global")]),
-  ("profile.Canonicalize", true, ["param0"], ["param0"], [], [("bitset.BitSet.Clear", "global"), ("bitset.BitSet.Clear", "param0"), ("bitset.BitSet.Clone", "global"), ("bitset.BitSet.Set", "global"), ("bitset.BitSet.Set", "param0"), ("bitset.BitSet.Test", "global"), ("bitset.BitSet.Test", "param0"), ("charmap.Charmap.DecodeByte", "param0"), ("charmap.Charmap.EncodeRune", "param0"), ("charmap.Charmap.String", "param0"), ("idna.Profile.ToASCII", "global")]),
+  ("profile.Parse", true, [], ["fresh"], [], [("bitset.BitSet.Clone", "global"), ("bitset.BitSet.Clone", "recv"), ("bitset.BitSet.Test", "global"), ("bitset.BitSet.Test", "recv"), ("charmap.Charmap.DecodeByte", "recv"), ("charmap.Charmap.EncodeRune", "recv"), ("charmap.Charmap.String", "recv"), ("idna.Profile.ToASCII", "global")]),
+  ("profile.ParseRef", true, [], ["fresh"], [], [("bitset.BitSet.Clone", "global"), ("bitset.BitSet.Clone", "recv"), ("bitset.BitSet.Test", "global"), ("bitset.BitSet.Test", "recv"), ("charmap.Charmap.DecodeByte", "recv"), ("charmap.Charmap.EncodeRune", "recv"), ("charmap.Charmap.String", "recv"), ("idna.Profile.ToASCII", "global")]),
+  ("profile.Canonicalize", true, ["param0"], ["param0"], [], [("bitset.BitSet.Clone", "global"), ("bitset.BitSet.Clone", "param0"), ("bitset.BitSet.Test", "global"), ("bitset.BitSet.Test", "param0"), ("charmap.Charmap.DecodeByte", "param0"), ("charmap.Charmap.EncodeRune", "param0"), ("charmap.Charmap.String", "param0"), ("idna.Profile.ToASCII", "global")]),
   ("decodeEncode", false, [], [], [], [("bitset.BitSet.Clone", "param1"), ("bitset.BitSet.Test", "global")]),
   ("repeatedDecode", false, [], [], [], [("bitset.BitSet.Test", "global")]),
   ("percentEncode", false, [], [], [], [("bitset.BitSet.Clone", "param1")]),
